@@ -35,3 +35,6 @@ PROP = dict(
              "the session is not attached to, and only their first reaction (reply code / hub channel) is compared",
              "Model/Gate.lean is a hand transcription tied to the code by the differential run only"],
 )
+
+from ..pin import add_pin
+PROP = add_pin(PROP)
